@@ -1,10 +1,10 @@
 (* Extraction of the bloom / log-filter model for ocaml/bloom/driver.ml.  ExtrOcamlBasic only. *)
-From AQ Require Import Lib.Bytes Lib.ExtractBase Lib.Keccak Bloom.BloomModel Bloom.FilterModel.
+From AQ Require Import Lib.Bytes Lib.ExtractBase Lib.Keccak Bloom.BloomModel Bloom.FilterModel Bloom.ByteModel.
 Require Extraction.
 Require Import ExtrOcamlBasic.
 Extraction "../ocaml/bloom/model.ml" base_anchor keccak256
   bloom_bytes N_of_be bloom9 logs_bloom create_bloom bloom_lookup calc_bloom_indexes
-  filter_logs bloom_filter matcher_filters
+  filter_logs bloom_filter matcher_filters new_matcher_filters
   pack new_generator add_bloom bitset gen_row row_bits process_section
-  known_sections stored_sections index_of_chain matcher_run
+  known_sections stored_sections index_of_chain matcher_run index_b_of_chain matcher_run_b
   filter_query brute_force.
